@@ -79,7 +79,7 @@ def build_one(exe, rng, idx):
 def gen_run(exe, rng, tier):
     # … and connections re-established by the real closeh/timeouth/tcpconnect (the reset flag the writer acts on is set by the real connecter)
     return (WH.run_parallel(exe, rng, 160 if tier == "quick" else 4000, build_one) +
-            WH.run_parallel(exe, rng, 40 if tier == "quick" else 1000, WH.srvconn_history))
+            WH.run_parallel(exe, rng, 80 if tier == "quick" else 2000, WH.srvconn_history))
 
 
 def dynconf_case(rng):
